@@ -268,11 +268,11 @@ pub fn check_aimed(tape: &[u16], rc: &mut RCase) -> Result<(), Failure> {
         ins: vec![rgen::RIn { name: "source".into(), party: 0, many: false, min: vec![Term::AdaParam(0), Term::Fees], ref_id: None }],
         outs: if with_pay {
             vec![
-                rgen::ROut { name: None, party: 1, terms: vec![Term::AdaParam(0)], change: false },
-                rgen::ROut { name: None, party: 0, terms: vec![], change: true },
+                rgen::ROut { name: None, party: 1, terms: vec![Term::AdaParam(0)], change: false, optional: false },
+                rgen::ROut { name: None, party: 0, terms: vec![], change: true, optional: false },
             ]
         } else {
-            vec![rgen::ROut { name: None, party: 0, terms: vec![], change: true }]
+            vec![rgen::ROut { name: None, party: 0, terms: vec![], change: true, optional: false }]
         },
         collateral: None,
             references: vec![],
